@@ -1,7 +1,7 @@
 //@unit element_parser
 // L10: element_parser::parse — the attribute state machine, mirrored on the OFFSETS it slices at.
-// (vstd gives no usable postcondition for `&str[a..b]`, so the text of names/values is tied to these
-//  offsets only by the slice expressions in the code, which the proof anchors quote verbatim.)
+// The text of names/values is tied to these offsets through the assumed std contract of str slicing (rule R14,
+// prelude `str_slice` / `str_slice_from`): `element_ok`.
 //@include types.vs
 
 pub mod ep {
@@ -9,49 +9,7 @@ use super::*;
 use crate::tokenizer;
 use crate::element_parser::{Element, Attribute};
 
-/// ghost mirror of the local `enum State` of parse
-pub enum PState { NameBegin, Name(int), NameEnd, ValueBegin, ValueWithNoQuote, ValueWithDoubleQuote(int), ValueWithSingleQuote(int), ParseError }
-/// one name[=value] pair as byte offsets into `target`
-pub struct POff { pub ns: int, pub ne: int, pub val: Option<(int, int)> }
-
-pub open spec fn set_last_val(offs: Seq<POff>, a: int, b: int) -> Seq<POff> {
-    offs.update(offs.len() - 1, POff { val: Some((a, b)), ..offs[offs.len() - 1] })
-}
-/// one step of the state machine on character c at byte offset pos
-pub open spec fn pstep(st: PState, offs: Seq<POff>, pos: int, c: char) -> (PState, Seq<POff>) {
-    match st {
-        PState::NameBegin => (if c == ' ' || c == '\n' { PState::NameBegin } else if c == '=' || c == '"' || c == '\'' { PState::ParseError } else { PState::Name(pos) }, offs),
-        PState::Name(start) => if c == ' ' || c == '\n' { (PState::NameEnd, offs.push(POff { ns: start, ne: pos, val: None })) }
-            else if c == '=' { (PState::ValueBegin, offs.push(POff { ns: start, ne: pos, val: None })) } else { (st, offs) },
-        PState::NameEnd => (if c == ' ' || c == '\n' { PState::NameEnd } else if c == '=' { PState::ValueBegin } else { PState::Name(pos) }, offs),
-        PState::ValueBegin => (if c == ' ' || c == '\n' { PState::ValueBegin } else if c == '"' { PState::ValueWithDoubleQuote(pos + 1) }
-            else if c == '\'' { PState::ValueWithSingleQuote(pos + 1) } else { PState::ValueWithNoQuote }, offs),
-        PState::ValueWithDoubleQuote(start) => if c == '"' { (PState::NameBegin, set_last_val(offs, start, pos)) } else { (st, offs) },
-        PState::ValueWithSingleQuote(start) => if c == '\'' { (PState::NameBegin, set_last_val(offs, start, pos)) } else { (st, offs) },
-        PState::ValueWithNoQuote => (if c == ' ' { PState::NameBegin } else { st }, offs),
-        PState::ParseError => (st, offs),
-    }
-}
-pub open spec fn pscan(cs: Seq<char>, n: int) -> (PState, Seq<POff>)
-    decreases n,
-{
-    if n <= 0 { (PState::NameBegin, Seq::empty()) } else {
-        let p = pscan(cs, n - 1);
-        pstep(p.0, p.1, char_byte_pos(cs, n - 1), cs[n - 1])
-    }
-}
-/// the pairs after the final flush of a pending name
-pub open spec fn pfinal(cs: Seq<char>) -> (PState, Seq<POff>) {
-    let p = pscan(cs, cs.len() as int);
-    match p.0 { PState::Name(start) => (p.0, p.1.push(POff { ns: start, ne: encode_utf8(cs).len() as int, val: None })), _ => p }
-}
-pub open spec fn parse_ok(cs: Seq<char>) -> bool { !(pfinal(cs).0 is ParseError) && pfinal(cs).1.len() > 0 }
-pub open spec fn target_of(token: tokenizer::Token) -> Seq<char> {
-    match token.kind {
-        tokenizer::TokenKind::Element(e) => strip_suffixes(strip_prefixes(token.value@, e.delimiter_start@), e.delimiter_end@),
-        _ => Seq::empty(),
-    }
-}
+//@include ep_vocab.vs
 pub proof fn lemma_pscan_step(cs: Seq<char>, n: int)
     requires 0 <= n,
     ensures pscan(cs, n + 1) == pstep(pscan(cs, n).0, pscan(cs, n).1, char_byte_pos(cs, n), cs[n]),
@@ -74,6 +32,12 @@ pub proof fn lemma_ascii_char_one_byte(cs: Seq<char>, n: int)
     !(token.kind is Element) ==> r is None,
     token.kind is Element ==> (r is Some <==> parse_ok(target_of(*token))),
     token.kind is Element && r is Some ==> r->0.attrs@.len() == pfinal(target_of(*token)).1.len() - 1,
+//@ensures label=parse_slices_are_the_machine_ranges props=C09
+    token.kind is Element && r is Some ==> element_ok(r->0, pfinal(target_of(*token)).1, encode_utf8(target_of(*token))),
+//@ensures label=parse_name_is_the_first_range props=C09,C10
+    (r is Some) == (ep_name(*token) is Some),
+    r matches Some(e) ==> e.name@ == ep_name(*token)->0,
+//@strslice target
 //@hoist State
 //@fold 1 type="(Vec<(&str, Option<&str>)>, State)"
 //@mapcollect 1 type="Vec<Attribute>"
@@ -87,19 +51,49 @@ pub proof fn lemma_ascii_char_one_byte(cs: Seq<char>, n: int)
     it_rem(__it1) =~= char_index_seq(target@).skip(__n),
     (psv(__acc1.1), __offs) == pscan(target@, __n),
     __acc1.0@.len() == __offs.len(),
+    pairs_ok(__acc1.0@, __offs, target.spec_bytes()),
     pstate_wf(psv(__acc1.1), __offs, target@, __n),
 //@loop-ensures
     target.spec_bytes() == encode_utf8(target@),
     (psv(__acc1.1), __offs) == pscan(target@, target@.len() as int),
     __acc1.0@.len() == __offs.len(),
+    pairs_ok(__acc1.0@, __offs, target.spec_bytes()),
     pstate_wf(psv(__acc1.1), __offs, target@, target@.len() as int),
 //@decreases
     IteratorSpec::decrease(&__it1)->0
 //@loop 2 iter=it2
 //@invariant
     __vM1@.len() == it2.index@,
+    it2.seq() == pairs@.subrange(1, pairs@.len() as int).as_ref(),
+    forall|i: int| 0 <= i < __vM1@.len() ==> attr_ok(#[trigger] __vM1@[i], __fo[i + 1], __tb),
+    pairs_ok(pairs@, __fo, __tb),
+    pairs@.len() >= 1,
+//@at loop 2 start
+    let ghost __k = it2.index@;
+    let ghost __v0 = __vM1@;
+    proof {
+        assert(pairs@.len() >= 1);
+        assert(pairs@.subrange(1, pairs@.len() as int).as_ref().len() == pairs@.len() - 1);
+        assert(0 <= __k < it2.seq().len());
+        assert(__xM1 == it2.seq()[__k]);
+        assert(it2.seq()[__k] == pairs@.subrange(1, pairs@.len() as int).as_ref()[__k]);
+        assert(*__xM1 == pairs@[__k + 1]);
+        assert(pair_ok(pairs@[__k + 1], __fo[__k + 1], __tb));
+    }
+//@at loop 2 end
+    proof {
+        assert(__vM1@ =~= __v0.push(__vM1@[__k]));
+        assert(attr_ok(__vM1@[__k], __fo[__k + 1], __tb));
+    }
+//@at before "Some(Element { name, attrs })"
+    proof {
+        reveal(ep_name);
+        assert(name.spec_bytes() == encode_utf8(name@));
+        encode_utf8_decode_utf8(name@);
+    }
 //@at body-start
     broadcast use {axiom_trim_start_str, axiom_trim_end_str};
+    proof { reveal(ep_name); }
 //@at before "let (mut pairs, last_state) ="
     let ghost mut __n: int = 0;
     let ghost mut __offs: Seq<POff> = Seq::empty();
@@ -126,13 +120,13 @@ pub proof fn lemma_ascii_char_one_byte(cs: Seq<char>, n: int)
         if (target@[__n] as u32) < 0x80 { lemma_ascii_char_one_byte(target@, __n); }
         lemma_state_pos(psv(__acc1.1), __offs, target@, __n);
     }
-//@at before "pairs.push((&target[start..pos], None));" 1
+//@at before "pairs.push((" 1
     proof { __offs = __offs.push(POff { ns: start as int, ne: pos as int, val: None }); }
-//@at before "pairs.push((&target[start..pos], None));" 2
+//@at before "pairs.push((" 2
     proof { __offs = __offs.push(POff { ns: start as int, ne: pos as int, val: None }); }
-//@at before "pairs.last_mut().unwrap().1 = Some(&target[start..pos]);" 1
+//@at before "pairs.last_mut().unwrap().1 = Some(" 1
     proof { __offs = set_last_val(__offs, start as int, pos as int); }
-//@at before "pairs.last_mut().unwrap().1 = Some(&target[start..pos]);" 2
+//@at before "pairs.last_mut().unwrap().1 = Some(" 2
     proof { __offs = set_last_val(__offs, start as int, pos as int); }
 //@at before "(pairs, state)"
     proof {
@@ -144,14 +138,26 @@ pub proof fn lemma_ascii_char_one_byte(cs: Seq<char>, n: int)
         lemma_char_pos_mono(target@, 0, target@.len() as int);
         lemma_state_pos(psv(last_state), __offs, target@, target@.len() as int);
     }
-//@at before "pairs.push((&target[start..], None));"
+//@at before "if last_state == State::ParseError"
+    let ghost __fo = pfinal(target_of(*token)).1;
+    let ghost __tb = encode_utf8(target_of(*token));
+//@at before "(pairs, last_state)" 2
+    proof {
+        assert(target@ == target_of(*token));
+        assert(__offs == pfinal(target@).1);
+        assert(pairs_ok(pairs@, pfinal(target_of(*token)).1, encode_utf8(target_of(*token))));
+    }
+//@at before "pairs.push((" 3
     proof {
         lemma_char_pos_boundary(target@, target@.len() as int);
         assert(psv(last_state) == PState::Name(start as int));
         assert(start <= target.spec_bytes().len());
         assert(cb(target.spec_bytes(), start as int));
+        __offs = __offs.push(POff { ns: start as int, ne: target.spec_bytes().len() as int, val: None });
     }
 //@end
+
+//@include grammar_vocab.vs
 
 /// mirror of the hoisted local enum
 pub open spec fn psv(s: State) -> PState {
